@@ -18,3 +18,6 @@ try:
     print(f"exit={r.returncode}", ' | '.join(tail[-4:])[:600])
 finally:
     subprocess.run(['git', '-C', '/repo', 'checkout', '--', f])
+    # the evidence file now describes a run against the mutated tree: put the committed one back
+    subprocess.run(['git', '-C', '/verif', 'checkout', '-q', '--', 'evidence/%s.json' % args[0]])
+    subprocess.run(['rm', '-rf', '/verif/replays/%s/found' % args[0]])
